@@ -114,6 +114,8 @@ def check_generated(case, shard, mon, rng):
     init = list(cfg.suggested_init())
     bounds = [tuple(b) for b in cfg.suggested_bounds()]
     fixed = list(cfg.suggested_fixed())
+    if case["mask"] == "release":
+        fixed = [False] * cfg.npars
     poi = cfg.poi_index
     # fixed mask: a nuisance fixed at a non-default value
     mask_kind = case["mask"]
@@ -124,6 +126,10 @@ def check_generated(case, shard, mon, rng):
         lo, hi = bounds[i]
         init[i] = min(max(init[i] + 0.3, lo), hi)
         shard.covered("masks", "nuisance fixed at non-default value")
+    if mask_kind == "release":
+        # the model declares a nuisance constant (measurement config), the caller's mask releases it:
+        # the fit must treat it as free (only the optimality oracles can see whether it did)
+        shard.covered("masks", "model-fixed nuisance released by the caller's mask")
     poi_val = None
     if mask_kind == "poi":
         poi_val = case["poi_val"]
@@ -225,12 +231,20 @@ def check_closed_form(case, shard, mon, rng):
 
     spec = case["spec"]
     kind = case["kind"]
-    model = pyhf.Model(copy.deepcopy(spec), poi_name="mu" if kind == "counting" else None)
+    spec_m = copy.deepcopy(spec)
+    if case.get("release"):
+        # every parameter is declared constant by the model and released by the caller's mask
+        names = {m["name"] for c in spec_m["channels"] for s_ in c["samples"] for m in s_["modifiers"]}
+        spec_m["parameters"] = [{"name": n, "fixed": True} for n in sorted(names)]
+    model = pyhf.Model(spec_m, poi_name="mu" if kind == "counting" else None)
     cfg = model.config
     data = case["data"] + list(cfg.auxdata)
     bounds = [tuple(b) for b in cfg.suggested_bounds()]
     init = list(cfg.suggested_init())
     fixed = list(cfg.suggested_fixed())
+    if case.get("release"):
+        fixed = [False] * cfg.npars
+        shard.covered("masks", "closed-form model with model-fixed parameters released by the caller's mask")
     if kind == "counting":
         ss, bs = c06.counting_arrays(spec)
         lo, hi = case["poi_bounds"]
@@ -311,8 +325,14 @@ def make_generated(rng, optimizers):
     else:  # datasets drawn around the model expectation (the property's domain); large deficits make the
         # interpolated likelihood multi-modal (MINUIT found a local minimum 19.6 above the global one on a 0.7x deficit)
         data = [float(gen.poisson_draw(rng, x)) for x in rates]
-    mask = rng.choice(["none", "nuisance", "poi", "poi"])
+    mask = rng.choice(["none", "nuisance", "poi", "poi", "release"])
     poi_val = rng.choice([0.0, 0.0, 1.0, 2.5, 10.0, gen._round(rng.uniform(0, 5), 2)])
+    if mask == "release":
+        scal = [n for n in model.config.par_order if n != "mu" and model.config.param_set(n).n_parameters == 1]
+        if scal:
+            spec["parameters"] = [{"name": rng.choice(scal), "fixed": True}]
+        else:
+            mask = "none"
     return {"spec": spec, "data": data, "mask": mask, "poi_val": poi_val, "optimizers": optimizers, "seed": rng.randrange(1 << 30)}
 
 
@@ -327,13 +347,13 @@ def make_closed(rng, optimizers):
             data = [gen._round(truth * s + b, 3) for s, b in zip(ss, bs)]
         minratio = min(b / s for s, b in zip(ss, bs))
         lo = rng.choice([0.0, 0.0, -gen._round(min(0.5 * minratio, 3.0), 2)])
-        return {"kind": "counting", "spec": spec, "data": data, "poi_bounds": [lo, 10.0], "optimizers": optimizers}
+        return {"kind": "counting", "spec": spec, "data": data, "poi_bounds": [lo, 10.0], "optimizers": optimizers, "release": rng.random() < 0.25}
     nb = rng.randint(1, 4)
     nom = [gen._round(rng.uniform(10, 80), 2) for _ in range(nb)]
     spec = {"channels": [{"name": "c", "samples": [{"name": "bkg", "data": nom, "modifiers": [{"name": "shape", "type": "shapefactor", "data": None}]}]}]}
     data = [float(gen.poisson_draw(rng, x * rng.uniform(0.5, 1.8))) for x in nom]
     data = [max(d, 1.0) for d in data]
-    return {"kind": "shapefactor", "spec": spec, "data": data, "optimizers": optimizers}
+    return {"kind": "shapefactor", "spec": spec, "data": data, "optimizers": optimizers, "release": rng.random() < 0.25}
 
 
 def plan(tier, seed):
